@@ -24,6 +24,7 @@ type Ctx struct {
 	tabd     *tabData
 	immE     *immEngine
 	joinCache map[*ssa.Function]bool
+	unsortedResult map[*ssa.Function]bool
 	VerifDir string
 	Seed     int
 }
@@ -83,6 +84,13 @@ func (c *Ctx) EntrySet(name string) ([]*ssa.Function, []string) {
 		}
 		add("graph.InDependencyOrder", "graph.CheckCycle")
 		fns = append(fns, p.ExportedFuncs("graph")...)
+	case "SELECT":
+		// the derivation operations of C15: methods of Project that return a project, and the service visitor
+		for _, f := range p.MethodsOf("types", "Project", true) {
+			if c.returnsProject(f) || f.Name() == "ForEachService" {
+				fns = append(fns, f)
+			}
+		}
 	case "GRAPH":
 		add("graph.InDependencyOrder", "graph.CheckCycle")
 		fns = append(fns, p.ExportedFuncs("graph")...)
